@@ -73,6 +73,48 @@ fn check_ms<C: ScriptContext>(ms: &Miniscript<DK, C>, what: &str) -> Result<(), 
             Err(e) => return fail(&format!("from-ast-rejects/{}", what), format!("from_ast rejects compiler-produced node {}: {}", sub, e)),
         }
     }
+    // resource limits of the target context, from the specification's satisfaction table (own
+    // recursion, `mirror::satsize`): the costliest canonical satisfaction must fit
+    {
+        let node = ast::from_lib(ms);
+        let ctx = match C::name_str() {
+            "Legacy/p2sh" => Some(Ctx::Legacy),
+            "Segwitv0" => Some(Ctx::Segwitv0),
+            "TapscriptCtx" => Some(Ctx::Tap),
+            _ => None,
+        };
+        if let Some(ctx) = ctx {
+            if let Some(crate::mirror::satsize::SD { sat: Some(c), .. }) = crate::mirror::satsize::sizes(&node, ctx) {
+                let over = match ctx {
+                    Ctx::Legacy if c.ssig > 1650 => Some(format!("its costliest satisfaction needs a {}-byte scriptSig (standard limit 1650)", c.ssig)),
+                    Ctx::Segwitv0 if c.elems > 100 => Some(format!("its costliest satisfaction has {} witness elements (standard limit 100)", c.elems)),
+                    Ctx::Tap if c.elems > 1000 => Some(format!("its costliest satisfaction has {} witness elements (stack limit 1000)", c.elems)),
+                    _ => None,
+                };
+                if let Some(o) = over {
+                    return fail(&format!("resource-limit/{}", what), format!("compiler output {}: {}", ms, o));
+                }
+            }
+            if let Ok(sc) = crate::mirror::encode::encode(&node, ctx) {
+                let lim = match ctx {
+                    Ctx::Legacy => 520,
+                    Ctx::Segwitv0 => 3600,
+                    _ => usize::MAX,
+                };
+                if sc.len() > lim {
+                    return fail(&format!("resource-limit/{}", what), format!("compiler output {} encodes to {} bytes (limit {})", ms, sc.len(), lim));
+                }
+                if ctx != Ctx::Tap {
+                    if let Some(ops) = crate::mirror::satsize::count_ops(&sc) {
+                        // (non-executed-branch independent part only: every opcode counts)
+                        if ops > 201 {
+                            return fail(&format!("resource-limit/{}", what), format!("compiler output {} has {} counted opcodes (limit 201)", ms, ops));
+                        }
+                    }
+                }
+            }
+        }
+    }
     // re-parse under the default rules
     let s = ms.to_string();
     match Miniscript::<DK, C>::from_str(&s) {
@@ -86,6 +128,15 @@ fn check_ms<C: ScriptContext>(ms: &Miniscript<DK, C>, what: &str) -> Result<(), 
         }
     }
     Ok(())
+}
+
+fn nest_and(items: &[String]) -> String {
+    // right-nested binary conjunction (the policy language's and() is binary)
+    match items.len() {
+        0 => "1".to_string(),
+        1 => items[0].clone(),
+        _ => format!("and({},{})", items[0], nest_and(&items[1..])),
+    }
 }
 
 fn sig_of_validation(e: &miniscript::ValidationError) -> String {
@@ -203,6 +254,86 @@ impl Check for C08 {
             Tier::Quick => vec![("compile", 48_000, 300), ("nary", 12_000, 300)],
             Tier::Thorough => vec![("compile", 960_000, 400), ("nary", 240_000, 400)],
         }
+    }
+    fn extra(&self, tier: Tier, st: &mut crate::runner::Stats, _known: &dyn Fn(&str) -> bool, _threads: usize) -> Result<serde_json::Value, Failure> {
+        // policies at the numeric limits of each target (the random lanes stay far below them):
+        // key thresholds around the 20-key CHECKMULTISIG limit and around the 1000-element
+        // tapscript stack, conjunctions around the 1650-byte scriptSig / 100-witness-item limits.
+        // Whatever the compiler returns must pass the same checks as any other output.
+        let secp = secp256k1::Secp256k1::new();
+        let key = |i: usize| -> String {
+            let mut b = [0u8; 32];
+            b[28..].copy_from_slice(&((i + 1) as u32).to_be_bytes());
+            b[0] = 0x5a;
+            let sk = secp256k1::SecretKey::from_slice(&b).expect("scalar");
+            keys::hex(&secp256k1::PublicKey::from_secret_key(&secp, &sk).serialize())
+        };
+        let ks = |n: usize| -> String { (0..n).map(|i| format!("pk({})", key(i))).collect::<Vec<_>>().join(",") };
+        let mut pols: Vec<(String, bool)> = Vec::new(); // (policy, tap-only)
+        for n in [15usize, 16, 17, 18, 19, 20, 21, 22] {
+            pols.push((nest_and(&(0..n).map(|i| format!("pk({})", key(i))).collect::<Vec<_>>()), false));
+            pols.push((format!("or(99@pk({}),1@{})", key(900), nest_and(&(0..n).map(|i| format!("pk({})", key(i))).collect::<Vec<_>>())), false));
+            for k in [1usize, 2, n - 1] {
+                pols.push((format!("thresh({},{})", k, ks(n)), false));
+            }
+        }
+        for n in [98usize, 99, 100, 101] {
+            pols.push((format!("thresh({},{})", n - 1, ks(n)), false));
+        }
+        let tap_ns: Vec<usize> = if tier == Tier::Thorough { vec![997, 998, 999, 1000, 1001] } else { vec![998, 999, 1000, 1001] };
+        for n in tap_ns {
+            for k in [2usize, n - 1] {
+                pols.push((format!("thresh({},{})", k, ks(n)), true));
+            }
+        }
+        let mut compiled = 0u64;
+        let mut refused = 0u64;
+        for (text, tap_only) in &pols {
+            let c = match Concrete::<DK>::from_str(text) {
+                Ok(c) => c,
+                Err(_) => continue,
+            };
+            macro_rules! ms_t {
+                ($c:ty, $name:expr) => {{
+                    st.evaluations += 1;
+                    match c.compile::<$c>() {
+                        Ok(ms) => {
+                            compiled += 1;
+                            check_ms::<$c>(&ms, $name)?;
+                        }
+                        Err(_) => refused += 1,
+                    }
+                }};
+            }
+            macro_rules! desc_t {
+                ($r:expr, $name:expr) => {{
+                    st.evaluations += 1;
+                    match $r {
+                        Ok(d) => {
+                            compiled += 1;
+                            let d: Descriptor<DK> = d;
+                            check_desc_ms(&d, $name)?;
+                            let s = d.to_string();
+                            if Descriptor::<DK>::from_str(&s).ok().as_ref() != Some(&d) {
+                                return fail(&format!("desc-reparse-fails/{}", $name), format!("compiled descriptor of the boundary policy `{}...` does not re-parse to itself", &text[..text.len().min(60)]));
+                            }
+                        }
+                        Err(_) => refused += 1,
+                    }
+                }};
+            }
+            if !*tap_only {
+                ms_t!(Legacy, "boundary/compile<Legacy>");
+                ms_t!(Segwitv0, "boundary/compile<Segwitv0>");
+                ms_t!(BareCtx, "boundary/compile<Bare>");
+                desc_t!(c.compile_to_descriptor::<Legacy>(DescriptorCtx::Sh), "boundary/to_desc(Sh)");
+                desc_t!(c.compile_to_descriptor::<Segwitv0>(DescriptorCtx::Wsh), "boundary/to_desc(Wsh)");
+            }
+            ms_t!(Tap, "boundary/compile<Tap>");
+            desc_t!(c.compile_tr(None), "boundary/compile_tr");
+            desc_t!(c.compile_to_descriptor::<Tap>(DescriptorCtx::Tr(None)), "boundary/to_desc(Tr)");
+        }
+        Ok(serde_json::json!({"boundary_policies": pols.len(), "boundary_outputs_checked": compiled, "boundary_refused": refused}))
     }
     fn run_case(&self, lane: &str, src: &mut Src, rep: &mut Report) -> Result<(), Failure> {
         // lane nary: and / or with 3-4 children, built through the enum constructors (the text
